@@ -59,8 +59,12 @@ func FixEmptyResponseDescriptions(s *spec.Swagger) {
 }
 
 // FixEmptyDescs adds "(empty)" as the description for any Response in
-// the given Responses object that doesn't already have one.
+// the given Responses object that doesn't already have one. No-op on nil input.
 func FixEmptyDescs(rs *spec.Responses) {
+	if rs == nil {
+		return
+	}
+
 	FixEmptyDesc(rs.Default)
 	for k, v := range rs.StatusCodeResponses {
 		FixEmptyDesc(&v) //#nosec
